@@ -219,6 +219,48 @@ theorem rem_exact (a b d : Dec) (hb : b.isZero = false) (h : Dec.rem a b = .ok d
   simp only [hb, Bool.false_eq_true, if_false] at h
   exact (fit_exact _ _ d h).1
 
+/-! ## Algebraic laws the exact arithmetic owes its users (for *every* pair, whatever the outcome:
+value, overflow or the rounding zone) -/
+
+theorem align_swap (a b : Dec) : align b a = ((align a b).2.1, (align a b).1, (align a b).2.2) := by
+  simp only [align, Nat.max_comm]
+
+/-- `a + b` and `b + a` are the same outcome (same digits, same scale, same error). -/
+theorem add_comm (a b : Dec) : Dec.add a b = Dec.add b a := by
+  simp only [Dec.add, align_swap a b, Int.add_comm]
+
+/-- `a * b` and `b * a` are the same outcome. -/
+theorem mul_comm (a b : Dec) : Dec.mul a b = Dec.mul b a := by
+  simp only [Dec.mul, Int.mul_comm, Nat.add_comm]
+
+/-- The order is total and strict: exactly one of `a < b`, `a == b`, `b < a`. -/
+theorem lt_asymm (a b : Dec) (h : Dec.lt a b = true) : Dec.lt b a = false := by
+  have h1 := (lt_by_value a b).mp h
+  cases hb : Dec.lt b a with
+  | false => rfl
+  | true => have h2 := (lt_by_value b a).mp hb; omega
+theorem lt_irrefl (a : Dec) : Dec.lt a a = false := by
+  cases h : Dec.lt a a with
+  | false => rfl
+  | true => have := (lt_by_value a a).mp h; omega
+theorem trichotomy (a b : Dec) : Dec.lt a b = true ∨ Dec.beq a b = true ∨ Dec.lt b a = true := by
+  rw [lt_by_value, eq_by_value, lt_by_value]; omega
+theorem le_iff_lt_or_eq (a b : Dec) : Dec.le a b = true ↔ (Dec.lt a b = true ∨ Dec.beq a b = true) := by
+  rw [le_by_value, lt_by_value, eq_by_value]; omega
+theorem beq_symm (a b : Dec) : Dec.beq a b = Dec.beq b a := by
+  cases h1 : Dec.beq a b <;> cases h2 : Dec.beq b a <;> try rfl
+  · have := (eq_by_value b a).mp h2
+    have h3 : Dec.beq a b = true := (eq_by_value a b).mpr this.symm
+    rw [h1] at h3; cases h3
+  · have := (eq_by_value a b).mp h1
+    have h3 : Dec.beq b a = true := (eq_by_value b a).mpr this.symm
+    rw [h2] at h3; cases h3
+/-- Equality is by value: a number equals itself at every scale it can be written in. -/
+theorem beq_rescale (n : Int) (s k : Nat) : Dec.beq (ofNumScale n s) (ofNumScale (n * 10 ^ k) (s + k)) = true := by
+  rw [eq_by_value, (ofNumScale_num n s).1, (ofNumScale_num n s).2,
+      (ofNumScale_num (n * 10 ^ k) (s + k)).1, (ofNumScale_num (n * 10 ^ k) (s + k)).2,
+      Int.pow_add, Int.mul_assoc, Int.mul_comm (10 ^ k) (10 ^ s)]
+
 /-! Witnesses (kernel-checked): the classic binary-float traps are exact. -/
 example : Dec.add ⟨false, 1, 1⟩ ⟨false, 2, 1⟩ = .ok ⟨false, 3, 1⟩ := by rfl
 example : Dec.beq ⟨false, 110, 2⟩ ⟨false, 11, 1⟩ = true := by decide
